@@ -8,7 +8,8 @@ EXPLANATION = ("R03.1 census of every message aggregate constructed in product c
                "WasmMsg::Execute with empty funds, vAMM SwapInput/SwapOutput/SettleFunding/SetOpen and insurance-fund Withdraw (a fixture "
                "with a Mint message must be seen); R03.2 receiver/payer origin of every transfer the engine can emit, per chain step; "
                "R03.3 liquidation replies never pay or charge the liquidated trader; R03.4 insurance-fund Withdraw pays config.engine in "
-               "both collateral arms.")
+               "both collateral arms; R03.5 the liquidator slot a liquidation reply pays from is written by the Liquidate handler with "
+               "info.sender, unconditionally, on every success path.")
 NOT_DECIDED = ("amounts (conservation itself is a property of bank / cw20 transfers, trusted); the fee pool's SendToken pays an arbitrary "
                "recipient by design (owner-gated, C09).")
 
